@@ -427,6 +427,64 @@ Fixpoint same_data (wc rc : cfg) (a b : list wentry) : bool :=
   | _, _ => false
   end.
 
+(* ---- boolean form of the preconditions of the whole-file round-trip theorem
+   (C06_hap_roundtrip): no tab in the names of extra fields and in the version; every
+   written text converts back to the value it was formatted from *)
+Definition has_tab (s : str) : bool := existsb (Z.eqb cTAB) s.
+
+Definition clean_cfgb (c : cfg) : bool :=
+  negb (has_tab (cfg_version c))
+  && forallb (fun t => forallb (fun x => negb (has_tab (x_name x))) (c_extras (cls_of c t))) type_letters.
+
+
+Definition codec_okb (c : cfg) (t : Z) (vals : list fval) : bool :=
+  forallb (fun n =>
+    match fkw_get n (attr_names c t) vals, getv n (base_types c t) with
+    | Some x, Some ty => res_eqb val_eqb (conv ty (fv_tok x)) (Ok (fv_val x))
+    | _, _ => true
+    end) (attr_names c t).
+
+Definition codec_datab (c : cfg) (d : list wentry) : bool :=
+  forallb (fun e => codec_okb c (w_kind (we_obj e)) (w_vals (we_obj e))
+                    && forallb (codec_okb c cV) (w_vars (we_obj e))) d.
+
+
+(* the round-trip precondition as one boolean *)
+Definition rt_pre (c : cfg) (d : list wentry) : bool :=
+  wf_cfg c && clean_cfgb c && wf_data c d && codec_datab c d.
+
+
+Definition val_in (wc : cfg) (t : Z) (vals : list fval) (n : str) : val :=
+  match fkw_get n (attr_names wc t) vals with Some x => fv_val x | None => VInt 0 end.
+
+(* the reader's attributes, each with the value written under its name *)
+Definition proj (wc rc : cfg) (t : Z) (vals : list fval) : list val :=
+  map (val_in wc t vals) (attr_names rc t).
+
+
+Definition strip_obj2 (wc rc : cfg) (o : wobj) : obj :=
+  mkobj (w_kind o) (proj wc rc (w_kind o) (w_vals o)) (map (proj wc rc cV) (w_vars o)).
+Definition strip_data2 (wc rc : cfg) (d : list wentry) : list (Z * obj) :=
+  map (fun e => (t_id (we_ktok e), strip_obj2 wc rc (we_obj e))) d.
+
+
+(* boolean form of the preconditions of C06_hap_roundtrip_subreader: the reader's classes
+   ask for a sub-selection of the writer's extras; every written text of a field the reader
+   asks for converts, under the reader's type, to the value it was formatted from *)
+Definition codec_ok2b (wc rc : cfg) (t : Z) (vals : list fval) : bool :=
+  forallb (fun n =>
+    match fkw_get n (attr_names wc t) vals, getv n (base_types rc t) with
+    | Some x, Some ty => res_eqb val_eqb (conv ty (fv_tok x)) (Ok (fv_val x))
+    | _, _ => true
+    end) (attr_names wc t).
+
+Definition codec_data2b (wc rc : cfg) (d : list wentry) : bool :=
+  forallb (fun e => codec_ok2b wc rc (w_kind (we_obj e)) (w_vals (we_obj e))
+                    && forallb (codec_ok2b wc rc cV) (w_vars (we_obj e))) d.
+
+Definition rt_pre2 (wc rc : cfg) (d : list wentry) : bool :=
+  wf_cfg wc && wf_cfg rc && sub_cfg rc wc && clean_cfgb wc && wf_data wc d && codec_data2b wc rc d.
+
 Definition holds_roundtrip (k : wcase) : bool :=
   if wf_cfg (w_cfg k) && wf_cfg (w_rcfg k) && sub_cfg (w_rcfg k) (w_cfg k) && wf_data (w_cfg k) (w_data k)
   then
@@ -435,6 +493,13 @@ Definition holds_roundtrip (k : wcase) : bool :=
         data_eqb d2 (strip_data (w_data2 k))        (* the harness's formatted copy is what was read *)
         && same_data (w_cfg k) (w_rcfg k) (w_data k) (w_data2 k)
         && (if w_same k then res_eqb lines_eqb (w_bytes2 k) (Ok b1) else true)
+        (* where the declared formats are exact for the values written, the values read are those values *)
+        && (if w_same k && rt_pre (w_cfg k) (w_data k)
+            then data_eqb (strip_data (w_data2 k)) (strip_data (w_data k)) else true)
+        (* the same for a reader asking for fewer extras: each requested attribute has the value written
+           under its name, the unrequested columns are skipped *)
+        && (if rt_pre2 (w_cfg k) (w_rcfg k) (w_data k)
+            then data_eqb (strip_data (w_data2 k)) (strip_data2 (w_cfg k) (w_rcfg k) (w_data k)) else true)
     | _, _ => false
     end
   else true.
